@@ -54,6 +54,8 @@ fn bodies() -> Vec<(&'static str, Vec<u8>)> {
         ("BITS R0,R1;BITC (R2),R0", vec![0xF1, 0x50, 0xF0, 0x66]),
         ("RRC;ASR", vec![0x40, 0x3D]),
         ("LDSP 0xE0", vec![0xFB, 0xE0, 0x40]),
+        // a regular stop in the main program: the harness presses continue six clock periods later
+        ("STOP", vec![0x01]),
     ]
 }
 
@@ -160,7 +162,7 @@ fn well_formed(p: &Prog) -> Result<(), String> {
         let before = cpu;
         mem.log.clear();
         let info = step(&mut cpu, &mut mem, &mut latch);
-        if !matches!(info.outcome, Outcome::Done) {
+        if !matches!(info.outcome, Outcome::Done) && !(matches!(info.outcome, Outcome::Stop) && info.form == "STOP") {
             return Err(format!("halts at {:#04x}", before.pc));
         }
         let lo_sp = info.sp_values.iter().cloned().chain([before.sp, cpu.sp]).min().unwrap();
@@ -244,11 +246,26 @@ fn trace0(p: &Prog) -> Result<Trace0, String> {
     let mut min_sp = 0xFFu8;
     let mut fin = None;
     let mut ief_first = 0;
+    let mut stopped = 0;
     while edges < 6000 {
         m.raw_mut().trigger_clock_edge();
         edges += 1;
         if ief_first == 0 && m.registers().content()[4] & 0x08 != 0 {
             ief_first = edges;
+        }
+        if m.state() == State::Stopped {
+            // the continue key, six clock periods after the stop
+            stopped += 1;
+            if stopped == 6 {
+                stopped = 0;
+                m.trigger_key_continue();
+                // the resumption point is a boundary of the main program (the STOP itself has no
+                // micro-step of its own that would make the fetch word "become" current again)
+                let s = Snap { cpu: mach::cpu_of(&m) };
+                snaps.insert(s.clone());
+                main_seq.push(s);
+            }
+            continue;
         }
         if m.state() != State::Running {
             return Err(format!("uninterrupted run halted with {:?} at edge {}", m.state(), edges));
@@ -301,6 +318,8 @@ fn interrupted(p: &Prog, t0: &Trace0, triggers: &[u32]) -> Result<RunStats, (Str
     let mut ti = 0;
     let horizon = t0.edges + 1500;
     let mut quiescent = None;
+    let mut resumed_at: Option<Cpu> = None;
+    let mut stopped = 0;
     let mut edge = 0u32;
     while edge < horizon {
         while ti < triggers.len() && triggers[ti] == edge {
@@ -317,12 +336,31 @@ fn interrupted(p: &Prog, t0: &Trace0, triggers: &[u32]) -> Result<RunStats, (Str
                 latch = true;
             }
         }
-        let sampling = {
-            let s = m.signals();
-            s.mac1() && s.mac0() && s.na0() && !s.mac2()
-        } && !m.verif_pending().3;
+        let sampling = m.state() == State::Running
+            && {
+                let s = m.signals();
+                s.mac1() && s.mac0() && s.na0() && !s.mac2()
+            }
+            && !m.verif_pending().3;
         m.raw_mut().trigger_clock_edge();
         edge += 1;
+        if m.state() == State::Stopped {
+            // the main program's STOP (or the same STOP seen again): continue six clock periods later
+            stopped += 1;
+            if stopped == 6 {
+                stopped = 0;
+                m.trigger_key_continue();
+                let cpu = mach::cpu_of(&m);
+                if !(cpu.pc >= 2 && cpu.pc < ISR_END) && main_idx < t0.main_seq.len() {
+                    if t0.main_seq[main_idx].cpu != cpu {
+                        return Err(("transparency/main-sequence-diverges".into(), format!("main-program boundary #{} (resumption after STOP): expected {:x?} observed {:x?}", main_idx, t0.main_seq[main_idx].cpu, cpu)));
+                    }
+                    main_idx += 1;
+                    resumed_at = Some(cpu);
+                }
+            }
+            continue;
+        }
         if m.state() != State::Running {
             return Err(("transparency/halt".into(), format!("interrupted run halted with {:?} at edge {}", m.state(), edge)));
         }
@@ -372,7 +410,13 @@ fn interrupted(p: &Prog, t0: &Trace0, triggers: &[u32]) -> Result<RunStats, (Str
                 }
             }
             let in_isr = cpu.pc >= 2 && cpu.pc < ISR_END;
+            // the resumption point after a STOP was already counted; when a routine ran right there, the
+            // fetch word becomes current (again) with the very same state after its RETI
+            let again = !in_isr && resumed_at == Some(cpu);
             if !in_isr {
+                resumed_at = None;
+            }
+            if !in_isr && !again {
                 // main program boundary: must follow the uninterrupted sequence
                 if main_idx < t0.main_seq.len() {
                     if t0.main_seq[main_idx].cpu != cpu {
@@ -386,6 +430,9 @@ fn interrupted(p: &Prog, t0: &Trace0, triggers: &[u32]) -> Result<RunStats, (Str
                 if cpu.pc == p.end && !latch && ti >= triggers.len() && quiescent.is_none() {
                     quiescent = Some(edge);
                 }
+            }
+            if again && cpu.pc == p.end && !latch && ti >= triggers.len() && quiescent.is_none() {
+                quiescent = Some(edge);
             }
             prev_boundary = Some(cpu);
             if let Some(q) = quiescent {
